@@ -2695,7 +2695,11 @@ func (h *ResponseHeader) parse(buf []byte) (int, error) {
 	if err != nil {
 		return 0, err
 	}
-	n, err := h.parseHeaders(buf[m:])
+	rawEnd, err := rawHeadersEnd(buf[m:])
+	if err != nil {
+		return 0, err
+	}
+	n, err := h.parseHeaders(buf[m:], rawEnd)
 	if err != nil {
 		return 0, err
 	}
@@ -2975,6 +2979,24 @@ func validateRequestURI(method, requestURI []byte) error {
 	return ErrorInvalidURI
 }
 
+// rawHeadersEnd returns the length of the header block at the start of buf,
+// up to and including the first blank line, like readRawHeaders but without
+// copying the block.
+func rawHeadersEnd(buf []byte) (int, error) {
+	n := 0
+	for {
+		m := bytes.IndexByte(buf[n:], nChar)
+		if m < 0 {
+			return 0, ErrNeedMore
+		}
+		blank := m == 0 || (m == 1 && buf[n] == rChar)
+		n += m + 1
+		if blank {
+			return n, nil
+		}
+	}
+}
+
 func readRawHeaders(dst, buf []byte) ([]byte, int, error) {
 	n := bytes.IndexByte(buf, nChar)
 	if n < 0 {
@@ -3003,12 +3025,13 @@ func readRawHeaders(dst, buf []byte) ([]byte, int, error) {
 	}
 }
 
-func (h *ResponseHeader) parseHeaders(buf []byte) (int, error) {
+func (h *ResponseHeader) parseHeaders(buf []byte, blockEnd int) (int, error) {
 	// 'identity' content-length by default
 	h.contentLength = -2
 
 	var s headerScanner
 	s.b = buf
+	s.blockEnd = blockEnd
 	var kv *argsKV
 	transferEncodingSeen := false
 	contentLengthSeen := false
